@@ -25,6 +25,14 @@ QUICK_MAX_LINES = 40
 CHUNK = 24
 
 
+def _shuffle(tasks, seed):
+    """VERIF_SEED only perturbs the order in which the (complete) task list is processed
+    (a shuffled order also balances the workers better than the generation order)."""
+    import random
+
+    random.Random(seed).shuffle(tasks)
+
+
 # ------------------------------------------------------------------ part L
 def _l_seeds(tier):
     from vf.props import c13_seeds as S
@@ -75,6 +83,7 @@ def part_l(rep, tier, deadline):
     rep.set("L_seeds_skipped_list", skipped[:40])
     rep.set("L_seeds_version_switched", len(switched))
     rep.set("L_planned_edits", planned)
+    _shuffle(tasks, rep.seed)
     tasks.sort(key=lambda t: -(len(t[2]) * max(1, t[5] - t[4])))
     done = 0
     fails = []
@@ -134,6 +143,7 @@ def part_e(rep, tier, deadline):
         for ver in ("2.x", "1.0"):
             E.load(ver, "", mode="confirm")
         tasks = E.e_tasks(tier)
+        _shuffle(tasks, rep.seed)
         rep.set("E_token_string_max_len", {f"{v}:ctx{c}": k for (v, c), k in E.SOUP_K[tier].items()})
         done = 0
         classes = {}
@@ -295,7 +305,7 @@ def replay(rp):
                 print("  original: ..." + base[max(0, i - 80): i + 120])
                 print("  edited  : ..." + got[max(0, i - 80): i + 120])
         except Exception as e:  # noqa
-            print(f"observed: {type(e).__name__}: {str(e)[:300]}")
+            print(f"observed: {type(e).__name__}: {' '.join(str(e).split())[:200]}")
         if rp["pos"] is not None:
             ls = edited.split("\n")
             lo = max(0, rp["pos"] - 2)
